@@ -146,15 +146,30 @@ func isolateReplays(root string) {
 // by gigabytes per campaign and Go only trims entries after days. When less
 // than VERIF_MIN_FREE_GB (default 12) is free on the cache's file system the
 // cache is emptied before the run (the run is then slower, not wrong).
-func guardDisk() {
+//
+// Emptying the cache under another build makes that build fail ("link: cannot
+// open file …"), so the checks coordinate through a lock file next to the
+// cache: every run holds it shared for its whole duration, the cleaner needs
+// it exclusively and gives up after a while unless the disk is nearly full.
+// The returned function releases the run's shared lock.
+func guardDisk() func() {
+	release := func() {}
 	out, err := exec.Command("go", "env", "GOCACHE").Output()
 	if err != nil {
-		return
+		return release
 	}
 	dir := strings.TrimSpace(string(out))
 	var st syscall.Statfs_t
 	if dir == "" || syscall.Statfs(dir, &st) != nil {
-		return
+		return release
+	}
+	lockPath := filepath.Join(filepath.Dir(dir), "verif-go-build.lock")
+	lf, lerr := os.OpenFile(lockPath, os.O_CREATE|os.O_RDWR, 0o644)
+	shared := func() {
+		if lerr == nil {
+			_ = syscall.Flock(int(lf.Fd()), syscall.LOCK_SH)
+			release = func() { _ = syscall.Flock(int(lf.Fd()), syscall.LOCK_UN); _ = lf.Close() }
+		}
 	}
 	minGB := 12
 	if v, err := strconv.Atoi(os.Getenv("VERIF_MIN_FREE_GB")); err == nil && v > 0 {
@@ -162,17 +177,41 @@ func guardDisk() {
 	}
 	free := st.Bavail * uint64(st.Bsize) >> 30
 	if free >= uint64(minGB) {
-		return
+		shared()
+		return release
+	}
+	// wait for the other runs to finish (up to 10 min; 40 min when the disk is nearly full)
+	if lerr == nil {
+		wait := 10 * time.Minute
+		if free < 3 {
+			wait = 40 * time.Minute
+		}
+		deadline := time.Now().Add(wait)
+		got := false
+		for time.Now().Before(deadline) {
+			if syscall.Flock(int(lf.Fd()), syscall.LOCK_EX|syscall.LOCK_NB) == nil {
+				got = true
+				break
+			}
+			time.Sleep(2 * time.Second)
+		}
+		if !got {
+			fmt.Printf("note: %d GiB free on the Go build cache's file system (< %d) but other checks are building: the cache is left alone\n", free, minGB)
+			shared()
+			return release
+		}
 	}
 	fmt.Printf("note: %d GiB free on the Go build cache's file system (< %d): emptying the cache (go clean -cache)\n", free, minGB)
 	c := exec.Command("go", "clean", "-cache")
 	c.Env = goEnv()
 	_ = c.Run()
+	shared() // converts the exclusive lock into a shared one
+	return release
 }
 
 func runCheck(id string, spec Spec, tier string, seed int64) int {
 	isolateReplays(verifRoot())
-	guardDisk()
+	defer guardDisk()()
 	if spec.Engine == "B" {
 		return runEngineB(id, spec, tier, seed)
 	}
